@@ -173,7 +173,7 @@ def unbond (s : State) (d : Addr) (v : Val) (amt rw : Nat) : Option State :=
     | none => none
     | some s1 =>
       let s2 := if sh - amt == 0 then { s1 with dels := del s1.dels (d, v), delIdx := rem s1.delIdx (v, d) }
-                else touchPost { s1 with dels := put s1.dels (d, v) (sh - amt) } d v
+                else touchPost { s1 with dels := put s1.dels (d, v) (sh - amt), delIdx := ins s1.delIdx (v, d) } d v
       some { s2 with valTok := put s2.valTok v (tokOf s2 v - amt) }
 
 /-- `UnbondingDelegation.AddEntry`: same creation height and completion time merge (one block ↔ one time) -/
